@@ -17,7 +17,8 @@ from harness import codec_cases as K
 
 TRUSTED = [
     "Coq 8.16.1 kernel + coqc; vm_compute for the computed witnesses/examples; no native_compute",
-    "extraction: ExtrOcamlBasic only, no Extract Constant; ocaml/driver.ml s-expression I/O",
+    "extraction: ExtrOcamlBasic only, no Extract Constant; ocaml/driver.ml s-expression I/O; a sample of the extracted impl-model "
+    "commands is re-evaluated by vm_compute inside coqc on every run and compared",
     "the spec models (theories/Codec) are my reading of parquet-format Encodings.md (LSB-first bit packing, ULEB128, zigzag, "
     "RLE/bit-packed hybrid grammar, DELTA_BINARY_PACKED layout, PLAIN boolean / byte array)",
     "the impl models (theories/Impl/C*.v) are hand transcriptions of cencoding.c/speedups.c (C integer types taken from the .c file); "
@@ -43,6 +44,7 @@ def run(ctx):
     cases = K.generate(ctx.rng, ctx.quick())
     K.check_cases(ctx, "C11", cases, os.path.join(ctx.scratch, "real"), sanitize=False)
     ctx.extra["lattice"] = K.lattice_summary(cases)
+    K.extraction_agreement(ctx, cases, os.path.join(ctx.scratch, "vm"), n=24 if ctx.quick() else 100)
 
 
 def replay(rep):
